@@ -40,7 +40,7 @@ def gen(rng, ctx):
             pass
     if rng.random() < 0.3:
         cd = G.shuffle_nodes(rng, cd)
-    return {"c": cd, "kind": kind, "via": rng.choice(["graph", "api"]), "repeat": rng.random() < 0.2}
+    return {"c": cd, "kind": kind, "via": rng.choice(["graph", "api", "sparse"]), "repeat": rng.random() < 0.2}
 
 
 def check(case, ctx):
